@@ -44,17 +44,18 @@ type Report struct {
 }
 
 type Ctx struct {
-	Tier    string
-	Seed    int64
-	Rng     *rand.Rand
-	Tmp     string
-	D       *drv.Driver
-	R       *Report
-	seen    map[string]bool
-	Only    string // restrict to one backend kind (replay)
-	Replay  string
-	maxMism int
-	NMism   int // total mismatches recorded (also beyond maxMism)
+	Tier      string
+	Seed      int64
+	Rng       *rand.Rand
+	Tmp       string
+	D         *drv.Driver
+	R         *Report
+	seen      map[string]bool
+	Only      string // restrict to one backend kind (replay)
+	Replay    string
+	maxMism   int
+	perFinger map[string]int
+	NMism     int // total mismatches recorded (also beyond maxMism)
 }
 
 func (c *Ctx) Thorough() bool { return c.Tier == "thorough" }
@@ -77,7 +78,14 @@ func (c *Ctx) nontrivial(fp string) {
 
 func (c *Ctx) mismatch(m Mismatch) {
 	c.NMism++
-	if len(c.R.Mismatches) < c.maxMism {
+	// keep at most 4 witnesses per (backend, kind, fingerprint) so that a frequent (possibly known)
+	// mismatch never crowds a different one out of the report
+	if c.perFinger == nil {
+		c.perFinger = map[string]int{}
+	}
+	fk := m.Backend + "|" + m.Kind + "|" + m.Finger
+	c.perFinger[fk]++
+	if c.perFinger[fk] <= 4 && len(c.R.Mismatches) < c.maxMism {
 		c.R.Mismatches = append(c.R.Mismatches, m)
 	}
 	c.hist("mismatch:" + m.Kind + ":" + m.Finger)
@@ -141,7 +149,7 @@ func main() {
 	}
 	ctx := &Ctx{Tier: *tier, Seed: *seed, Rng: rand.New(rand.NewSource(*seed)), Tmp: *tmp, D: d,
 		R: &Report{Property: *prop, Tier: *tier, Seed: *seed, Hist: map[string]int{}}, seen: map[string]bool{},
-		Only: *only, Replay: *replay, maxMism: 200}
+		Only: *only, Replay: *replay, maxMism: 400}
 	f(ctx)
 	d.Close()
 	ctx.R.DriverLines = d.N
